@@ -48,4 +48,11 @@ Spacing        == \A a \in Axes : \A k \in 0..(ncells[a] - 2) : Centre1(a, k + 1
 CoversBounds   == \A a \in Axes : /\ 2 * Centre1(a, 0) - R <= 2 * lo[a]
                                   /\ 2 * hi[a] <= 2 * Centre1(a, ncells[a] - 1) + R
 C13 == InRangeAndClose /\ CentresMapBack /\ Spacing /\ CoversBounds
-=============================================================================
+(* Generic (non-lattice) grids: the relations of C13 measured on the real mapping as residuals, in units of one rounding of a       *)
+(* coordinate of the grid's size (eps * max(1, largest |bound|)):  res = << excess of |p - centre| over half a resolution,          *)
+(* deviation of the centre spacing from the resolution, lower bound not covered by the first cell, upper bound not covered by the  *)
+(* last cell >>.  Indexes in range, centres mapping back to their own cell and the two centre accessors agreeing are exact facts.  *)
+GenericBound == 8
+GenericOK(t) == /\ t.inRange /\ t.back /\ t.tabSame
+                /\ \A i \in 1..4 : t.res[i] <= GenericBound
+=========================================================================
